@@ -369,6 +369,31 @@ def run_case(case, res):
                 if g != want:
                     raise Violation("foreign-probe", f"{dsc} -> {g}, expected {want} (content {sorted(model)!r})", {})
             res.count("nan_probes")
+        elif op == "probe" and aux % 6 == 4:
+            # an orderable number of another type (Fraction, Decimal) that is equal to a key / to no key: found / absent exactly
+            # as in a set / dict (equal numbers hash alike)
+            import math
+            from decimal import Decimal
+            from fractions import Fraction
+            if isinstance(k, float) and not math.isfinite(k):
+                continue
+            conv = Fraction if aux % 12 < 6 else Decimal
+            for base in (k, k + 0.5 if abs(k) < 2 ** 40 else k + 1):
+                f = conv(base)
+                present = f in model
+                desc = f"probe {f!r} (a {conv.__name__} equal to {base!r})"
+                g = _g(desc, lambda: f in s)
+                if g != ("ok", present):
+                    raise Violation("foreign-probe", f"{f!r} in s -> {g}; set / dict answer {present} (content {sorted(model)[:12]!r})", {})
+                if kind == "map":
+                    g = _g(desc, lambda: s[f])
+                    want = ("ok", model[f]) if present else ("exc", "KeyError")
+                    if g != want:
+                        raise Violation("foreign-probe", f"m[{f!r}] -> {g}, expected {want}", {})
+                    g = _g(desc, lambda: s.get(f, "dflt"))
+                    if g != ("ok", model.get(f, "dflt")):
+                        raise Violation("foreign-probe", f"m.get({f!r}) -> {g}, expected {model.get(f, 'dflt')!r}", {})
+            res.count("numeric_probes_of_another_type")
         elif op == "probe":
             f = FOREIGN[aux % len(FOREIGN)]
             desc = f"probe {f!r}"
@@ -407,6 +432,21 @@ def run_case(case, res):
             if g[0] == "ok":
                 raise Violation("invalid-key-accepted", f"{desc} returned normally ({g[1]!r}); content {list(s)!r}", {})
             res.count("invalid_store_attempts")
+        elif op == "store" and aux % 5 == 2:
+            # the value is overwritten by an equal but different object, which the caller goes on changing: like a dict, the
+            # map holds the object stored last
+            first, second = [step], [step]
+            desc = f"m[{k!r}]=[{step}] twice (two equal lists), then the second list is appended to"
+            for val in (first, second):
+                g = _g(desc, lambda: s.__setitem__(k, val))
+                if g != ("ok", None):
+                    raise Violation("operation-raised", f"m[{k!r}]=.. -> {g}", {})
+                model[k] = val
+            second.append("later")
+            g = _g(desc, lambda: s[k])
+            if g != ("ok", model[k]):
+                raise Violation("lookup-value", f"{desc}: m[{k!r}] -> {g}, a dict answers {model[k]!r}", {})
+            res.count("overwrites_with_an_equal_but_different_object")
         elif op == "store":
             val = f"s{step}"
             g = _g(desc, lambda: s.__setitem__(k, val))
